@@ -77,7 +77,16 @@ def run(prop, src, jobs=16):
         for d in sorted(os.listdir(sd)):
             pf = os.path.join(sd, d, "patch.diff")
             if d.split("-")[0] == prop and os.path.exists(pf):
-                work.append(({"name": f"seeded regression {d}", "patch": pf, "expect": prop + "."}, "mutant"))
+                kind = "breaking"
+                try:
+                    import json
+                    kind = json.load(open(os.path.join(sd, d, "meta.json"))).get("kind", "breaking")
+                except Exception:
+                    pass
+                if kind == "neutral":
+                    work.append(({"name": f"behaviour-preserving cleanup {d}", "patch": pf}, "clean"))
+                else:
+                    work.append(({"name": f"seeded regression {d}", "patch": pf, "expect": prop + "."}, "mutant"))
     if not work:
         return None
     with ThreadPoolExecutor(jobs) as ex:
